@@ -36,4 +36,181 @@ theorem countLeadingSpacesAt_eq (lvl : Level) (buf : List Byte) (s : Nat) :
     · exact countSse2_eq _
     · rfl
 
+/-! ### parse_anchor_name -/
+
+/-- stop-or-colon: the bytes at which `parse_anchor_name_scalar` does something other than advance -/
+def isStopOrColon (x : Byte) : Bool := isAnchorStop x || isColon x
+
+theorem anchorScan_cons (b : Byte) (rest : List Byte) (pos : Nat) :
+    anchorScan (b :: rest) pos =
+      if isAnchorStop b then pos
+      else if isColon b then
+        match rest with
+        | n :: _ => if isWs n then pos else anchorScan rest (pos + 1)
+        | [] => anchorScan rest (pos + 1)
+      else anchorScan rest (pos + 1) := by
+  cases rest <;> rfl
+
+theorem anchorScan_skip (pre rest : List Byte) (pos : Nat)
+    (h : ∀ x ∈ pre, isStopOrColon x = false) :
+    anchorScan (pre ++ rest) pos = anchorScan rest (pos + pre.length) := by
+  induction pre generalizing pos with
+  | nil => simp
+  | cons x xs ih =>
+    have hx := h x (by simp)
+    unfold isStopOrColon at hx
+    have h1 : isAnchorStop x = false := by cases h1 : isAnchorStop x <;> simp_all
+    have h2 : isColon x = false := by cases h2 : isColon x <;> simp_all
+    rw [List.cons_append, anchorScan_cons, h1, h2]
+    simp only [Bool.false_eq_true, if_false]
+    rw [ih (pos + 1) (fun y hy => h y (by simp [hy]))]
+    simp only [List.length_cons]; congr 1; omega
+
+/-- The scalar scan, seen from the first stop-or-colon byte at index `i` of the suffix. -/
+theorem anchorScan_at (rest : List Byte) (pos i : Nat) (hi : i < rest.length)
+    (hpre : ∀ x ∈ rest.take i, isStopOrColon x = false) (hq : isStopOrColon rest[i] = true) :
+    anchorScan rest pos =
+      if isAnchorStop rest[i] then pos + i
+      else if (i + 1 < rest.length ∧ isWs (rest.getD (i + 1) 0#8)) then pos + i
+      else anchorScan (rest.drop (i + 1)) (pos + i + 1) := by
+  have hsplit : rest = rest.take i ++ rest[i] :: rest.drop (i + 1) := by
+    rw [List.getElem_cons_drop, List.take_append_drop]
+  have htl : (rest.take i).length = i := by rw [List.length_take]; omega
+  conv => lhs; rw [hsplit, anchorScan_skip _ _ _ hpre, htl]
+  rw [anchorScan_cons]
+  by_cases hs : isAnchorStop rest[i] = true
+  · rw [if_pos hs, if_pos hs]
+  · rw [if_neg hs, if_neg hs]
+    have hc : isColon rest[i] = true := by
+      unfold isStopOrColon at hq
+      have h1 : isAnchorStop rest[i] = false := by simpa using hs
+      rw [h1] at hq; simpa using hq
+    rw [if_pos hc]
+    by_cases hlen : i + 1 < rest.length
+    · rw [List.drop_eq_getElem_cons hlen]
+      have hg : rest.getD (i + 1) 0#8 = rest[i + 1] := by
+        rw [List.getD_eq_getElem?_getD, List.getElem?_eq_getElem hlen]; rfl
+      simp only [hg, hlen, true_and]
+    · have hd : rest.drop (i + 1) = [] := List.drop_eq_nil_of_le (by omega)
+      rw [hd]
+      simp only [hlen, false_and, if_false]
+
+def laneStopOrColon (x : Byte) : Byte := por (laneAnchorDefinite x) (laneColon x)
+
+theorem laneStopOrColon_msb (x : Byte) : (laneStopOrColon x).msb = isStopOrColon x := by
+  unfold laneStopOrColon por isStopOrColon
+  rw [BitVec.msb_or, laneAnchorDefinite_msb, laneColon_msb]
+
+theorem anchorAvx2Loop_succ (buf : List Byte) (fuel pos : Nat) :
+    anchorAvx2Loop buf (fuel + 1) pos =
+      if pos + 32 ≤ buf.length then
+        if movemask ((chunkAt buf pos 32).map laneAnchorDefinite) |||
+            movemask ((chunkAt buf pos 32).map laneColon) ≠ 0 then
+          if (movemask ((chunkAt buf pos 32).map laneAnchorDefinite) >>>
+              ctz32 (movemask ((chunkAt buf pos 32).map laneAnchorDefinite) |||
+                movemask ((chunkAt buf pos 32).map laneColon))) &&& 1 ≠ 0
+          then pos + ctz32 (movemask ((chunkAt buf pos 32).map laneAnchorDefinite) |||
+                movemask ((chunkAt buf pos 32).map laneColon))
+          else
+            if pos + ctz32 (movemask ((chunkAt buf pos 32).map laneAnchorDefinite) |||
+                movemask ((chunkAt buf pos 32).map laneColon)) + 1 < buf.length ∧
+              isWs (buf.getD (pos + ctz32 (movemask ((chunkAt buf pos 32).map laneAnchorDefinite) |||
+                movemask ((chunkAt buf pos 32).map laneColon)) + 1) 0#8)
+            then pos + ctz32 (movemask ((chunkAt buf pos 32).map laneAnchorDefinite) |||
+                movemask ((chunkAt buf pos 32).map laneColon))
+            else parseAnchorNameScalar buf
+              (pos + ctz32 (movemask ((chunkAt buf pos 32).map laneAnchorDefinite) |||
+                movemask ((chunkAt buf pos 32).map laneColon)) + 1)
+        else anchorAvx2Loop buf fuel (pos + 32)
+      else parseAnchorNameScalar buf pos := rfl
+
+theorem anchorAvx2Loop_eq (buf : List Byte) : ∀ fuel pos,
+    anchorAvx2Loop buf fuel pos = parseAnchorNameScalar buf pos := by
+  intro fuel
+  induction fuel with
+  | zero => intro pos; rfl
+  | succ fuel ih =>
+    intro pos
+    rw [anchorAvx2Loop_succ]
+    by_cases h : pos + 32 ≤ buf.length
+    · rw [if_pos h]
+      unfold chunkAt
+      rw [movemask_or]
+      have hrl : (buf.drop pos).length = buf.length - pos := List.length_drop
+      have hcl : ((buf.drop pos).take 32).length = 32 := by rw [List.length_take, hrl]; omega
+      generalize hrest : buf.drop pos = rest at *
+      have hcomb : ∀ c : List Byte, c.map (fun x => por (laneAnchorDefinite x) (laneColon x)) = c.map laneStopOrColon :=
+        fun _ => rfl
+      rw [hcomb]
+      by_cases hne : movemask ((rest.take 32).map laneStopOrColon) ≠ 0
+      · rw [if_pos hne]
+        rw [ctz32_lanes laneStopOrColon isStopOrColon laneStopOrColon_msb _ (by omega) hne]
+        have hex : ∃ x ∈ rest.take 32, isStopOrColon x = true := by
+          have := mt (movemask_map_eq_zero laneStopOrColon isStopOrColon laneStopOrColon_msb (rest.take 32)).mpr hne
+          exact Classical.byContradiction (fun hc => this (fun x hx => by
+            cases hq : isStopOrColon x
+            · rfl
+            · exact absurd ⟨x, hx, hq⟩ hc))
+        have hi := List.findIdx_lt_length_of_exists hex
+        generalize hidx : (rest.take 32).findIdx isStopOrColon = i at *
+        have hi32 : i < 32 := by omega
+        have hir : i < rest.length := by omega
+        have hget : (rest.take 32)[i] = rest[i] := by simp
+        have hq : isStopOrColon rest[i] = true := by
+          rw [← hget]; subst hidx; exact List.findIdx_getElem
+        have hpre : ∀ x ∈ rest.take i, isStopOrColon x = false := by
+          intro x hx
+          rcases List.mem_take_iff_getElem.mp hx with ⟨j, hj, rfl⟩
+          have hj' : j < i := by omega
+          have : j < (rest.take 32).findIdx isStopOrColon := by omega
+          have := List.not_of_lt_findIdx this
+          simpa using this
+        have hscan := anchorScan_at rest pos i hir hpre hq
+        have htb : ((movemask ((rest.take 32).map laneAnchorDefinite) >>> i) &&& 1 ≠ 0) ↔
+            isAnchorStop rest[i] = true := by
+          rw [shr_and_one, testBit_movemask, List.getElem?_map]
+          have : (rest.take 32)[i]? = some rest[i] := by
+            rw [List.getElem?_eq_getElem (by omega), hget]
+          rw [this]; simp [laneAnchorDefinite_msb]
+        unfold parseAnchorNameScalar
+        rw [hrest, hscan]
+        have hd : buf.drop (pos + i + 1) = rest.drop (i + 1) := by
+          rw [← hrest, List.drop_drop, Nat.add_assoc]
+        have hgd : buf.getD (pos + i + 1) 0#8 = rest.getD (i + 1) 0#8 := by
+          rw [List.getD_eq_getElem?_getD, List.getD_eq_getElem?_getD, ← hrest, List.getElem?_drop, Nat.add_assoc]
+        rw [hd, hgd]
+        by_cases hs : isAnchorStop rest[i] = true
+        · rw [if_pos (htb.mpr hs), if_pos hs]
+        · rw [if_neg (fun hc => hs (htb.mp hc)), if_neg hs]
+          have hlt : (pos + i + 1 < buf.length) ↔ (i + 1 < rest.length) := by omega
+          simp only [hlt]
+      · rw [if_neg hne, ih]
+        have hz : movemask ((rest.take 32).map laneStopOrColon) = 0 := by simpa using hne
+        have hall := (movemask_map_eq_zero laneStopOrColon isStopOrColon laneStopOrColon_msb _).mp hz
+        unfold parseAnchorNameScalar
+        rw [hrest]
+        conv => rhs; rw [← List.take_append_drop 32 rest, anchorScan_skip _ _ _ hall, hcl]
+        rw [← hrest, List.drop_drop]
+    · rw [if_neg h]
+
+theorem parseAnchorNameAvx2_eq (buf : List Byte) (start : Nat) :
+    parseAnchorNameAvx2 buf start = parseAnchorNameScalar buf start := by
+  unfold parseAnchorNameAvx2
+  split
+  · rename_i h
+    unfold parseAnchorNameScalar
+    rw [List.drop_eq_nil_of_le h]; rfl
+  · exact anchorAvx2Loop_eq buf _ _
+
+theorem parseAnchorName_eq (lvl : Level) (buf : List Byte) (start : Nat) :
+    parseAnchorName lvl buf start = parseAnchorNameScalar buf start := by
+  unfold parseAnchorName
+  cases lvl
+  · simp only; split
+    · exact parseAnchorNameAvx2_eq buf start
+    · rfl
+  · rfl
+  · rfl
+
+
 end SV.Yaml
